@@ -254,6 +254,36 @@ macro_rules! uint_cells {
         cell!($reg, t, "Uint::sqrt", w, "", Gen::Any1, |s: &Slots| { bb(u::<L>(&s.a[0]).sqrt()); });
         cell!($reg, t, "Uint::checked_sqrt", w, "", Gen::Any1, |s: &Slots| { bb(u::<L>(&s.a[0]).checked_sqrt()); });
         cell!($reg, t, "Uint::to_words_from_words", w, "", Gen::Any1, |s: &Slots| { bb(Uint::<L>::from_words(u::<L>(&s.a[0]).to_words())); });
+        // ---- wrappers and encodings
+        cell!($reg, t, "Wrapping<Uint>::ops", w, "", Gen::Any2, |s: &Slots| {
+            let (x, y) = (crypto_bigint::Wrapping(u::<L>(&s.a[0])), crypto_bigint::Wrapping(u::<L>(&s.a[1])));
+            bb((x + y, x - y, x * y, -x, x & y, x | y, x ^ y));
+        });
+        cell!($reg, t, "Checked<Uint>::ops", w, "", Gen::Any2, |s: &Slots| {
+            let (x, y) = (crypto_bigint::Checked::new(u::<L>(&s.a[0])), crypto_bigint::Checked::new(u::<L>(&s.a[1])));
+            bb((x + y, x - y, x * y));
+        });
+        cell!($reg, t, "Uint::to_be_bytes_from_be_slice", w, "", Gen::Any1, |s: &Slots| {
+            let x = u::<L>(&s.a[0]);
+            let mut buf = [0u8; 8 * L];
+            for (i, l) in x.as_limbs().iter().rev().enumerate() {
+                buf[8 * i..8 * i + 8].copy_from_slice(&l.0.to_be_bytes());
+            }
+            bb((Uint::<L>::from_be_slice(&buf), Uint::<L>::from_le_slice(&buf)));
+        });
+        cell!($reg, t, "Uint::wrapping_rem_vartime_secret_dividend", w, "divisor#0", Gen::Any1, {
+            let dv = public_modulus(w, 0);
+            let d = u::<L>(&dv);
+            move |s: &Slots| { bb(u::<L>(&s.a[0]).wrapping_rem_vartime(&d)); }
+        });
+        cell!($reg, t, "Int::div_rem_uint", w, "", Gen::Div, |s: &Slots| {
+            let (x, y) = (u::<L>(&s.a[0]).as_int(), NonZero::new(u::<L>(&s.a[1])).unwrap());
+            bb((x.div_rem_uint(&y), x.rem_uint(&y), x.div_rem_floor_uint(&y)));
+        });
+        cell!($reg, t, "Int::checked_div", w, "", Gen::Any2, |s: &Slots| {
+            let (x, y): (Int<L>, Int<L>) = (u::<L>(&s.a[0]).as_int(), u::<L>(&s.a[1]).as_int());
+            bb((x.checked_div(&y), x.checked_div_floor(&y)));
+        });
         // ---- signed
         cell!($reg, t, "Int::abs_sign", w, "", Gen::Any1, |s: &Slots| { bb(u::<L>(&s.a[0]).as_int().abs_sign()); });
         cell!($reg, t, "Int::checked_add", w, "", Gen::Any2, |s: &Slots| { bb(u::<L>(&s.a[0]).as_int().checked_add(&u::<L>(&s.a[1]).as_int())); });
@@ -336,6 +366,19 @@ macro_rules! uint_inv_cells {
             });
             cell!($reg, t, "MontyForm::square", w, pubs, g.clone(), move |s: &Slots| { bb(MontyForm::<L>::from_montgomery(u::<L>(&s.a[0]), params).square()); });
             cell!($reg, t, "MontyForm::div_by_2", w, pubs, g.clone(), move |s: &Slots| { bb(MontyForm::<L>::from_montgomery(u::<L>(&s.a[0]), params).div_by_2()); });
+            cell!($reg, t, "MontyForm::double", w, pubs, g.clone(), move |s: &Slots| { bb(MontyForm::<L>::from_montgomery(u::<L>(&s.a[0]), params).double()); });
+            cell!($reg, t, "MontyForm::ct_eq_select", w, pubs, g.clone(), move |s: &Slots| {
+                let (x, y) = (MontyForm::<L>::from_montgomery(u::<L>(&s.a[0]), params), MontyForm::<L>::from_montgomery(u::<L>(&s.a[1]), params));
+                let c = x.ct_eq(&y);
+                bb((c, MontyForm::<L>::conditional_select(&x, &y, c), x == y));
+            });
+            cell!($reg, t, "MontyForm::assign_ops", w, pubs, g.clone(), move |s: &Slots| {
+                let (mut x, y) = (MontyForm::<L>::from_montgomery(u::<L>(&s.a[0]), params), MontyForm::<L>::from_montgomery(u::<L>(&s.a[1]), params));
+                x += y;
+                x *= y;
+                x -= y;
+                bb(x);
+            });
             cell!($reg, t, "MontyForm::inv", w, pubs, g.clone(), move |s: &Slots| { bb(MontyForm::<L>::from_montgomery(u::<L>(&s.a[0]), params).inv()); });
             for eb in [1u32, 5, 64, 65] {
                 if (eb as u64) <= bits && (L <= 4 || eb <= 5) {
@@ -393,6 +436,15 @@ fn limb_cells(reg: &mut Vec<Cell>) {
     cell!(reg, 0, "Limb::checked_ops", 1, "", Gen::Limbs3, |s: &Slots| {
         let (a, b) = (Limb(s.s[0]), Limb(s.s[1]));
         bb((crypto_bigint::CheckedAdd::checked_add(&a, &b), crypto_bigint::CheckedSub::checked_sub(&a, &b), crypto_bigint::CheckedMul::checked_mul(&a, &b)));
+    });
+    cell!(reg, 0, "Limb::shl_shr", 1, "", Gen::Limbs3, |s: &Slots| {
+        let a = Limb(s.s[0]);
+        let k = (s.s[1] % 64) as u32;
+        bb((a.shl(k), a.shr(k), a << k, a >> k));
+    });
+    cell!(reg, 0, "Limb::bit_ops", 1, "", Gen::Limbs3, |s: &Slots| {
+        let (a, b) = (Limb(s.s[0]), Limb(s.s[1]));
+        bb((a & b, a | b, a ^ b, !a));
     });
     cell!(reg, 0, "Limb::ct_cmp", 1, "", Gen::Limbs3, |s: &Slots| {
         let (a, b) = (Limb(s.s[0]), Limb(s.s[1]));
@@ -482,6 +534,28 @@ fn boxed_cells(reg: &mut Vec<Cell>, w: usize, t: u8) {
     cell!(reg, t, "BoxedUint::inv_odd_mod", w, "", Gen::Mod { odd: true }, |s: &Slots| { bb(bx(&s.a[0]).inv_odd_mod(&Odd::new(bx(&s.a[2])).unwrap())); });
     cell!(reg, t, "BoxedUint::inv_mod", w, "", Gen::Mod { odd: false }, |s: &Slots| { bb(bx(&s.a[0]).inv_mod(&bx(&s.a[2]))); });
     cell!(reg, t, "BoxedUint::gcd", w, "", Gen::Any2, |s: &Slots| { bb(Gcd::gcd(&bx(&s.a[0]), &bx(&s.a[1]))); });
+    cell!(reg, t, "BoxedUint::is_one", w, "", Gen::Any1, |s: &Slots| { bb(bx(&s.a[0]).is_one()); });
+    cell!(reg, t, "BoxedUint::ct_assign", w, "", Gen::Any2, |s: &Slots| {
+        let (mut x, y) = (bx(&s.a[0]), bx(&s.a[1]));
+        let c = x.ct_gt(&y);
+        <BoxedUint as crypto_bigint::ConstantTimeSelect>::ct_assign(&mut x, &y, c);
+        bb(x);
+    });
+    cell!(reg, t, "BoxedUint::from_be_slice", w, "", Gen::Any1, |s: &Slots| {
+        let x = bx(&s.a[0]);
+        let b = x.to_be_bytes();
+        bb((BoxedUint::from_be_slice(&b, x.bits_precision()).ok(), x.to_le_bytes()));
+    });
+    cell!(reg, t, "BoxedUint::widen_shorten", w, "", Gen::Any1, |s: &Slots| {
+        let x = bx(&s.a[0]);
+        bb((x.widen(x.bits_precision() + 64), x.shorten(64)));
+    });
+    cell!(reg, t, "Wrapping<BoxedUint>::ops", w, "", Gen::Any2, |s: &Slots| {
+        let (x, y) = (crypto_bigint::Wrapping(bx(&s.a[0])), crypto_bigint::Wrapping(bx(&s.a[1])));
+        bb((&x + &y, &x - &y, &x * &y));
+    });
+    cell!(reg, t, "BoxedUint::neg_mod_special", w, "c=189", Gen::Any1, |s: &Slots| { bb(bx(&s.a[0]).neg_mod_special(Limb(189))); });
+    cell!(reg, t, "BoxedUint::sub_mod_special", w, "c=189", Gen::Any2, |s: &Slots| { bb(bx(&s.a[0]).sub_mod_special(&bx(&s.a[1]), Limb(189))); });
     cell!(reg, t, "BoxedUint::to_be_bytes", w, "", Gen::Any1, |s: &Slots| { bb(bx(&s.a[0]).to_be_bytes()); });
     for mi in 0..2usize {
         let m = public_modulus(w, mi);
@@ -513,6 +587,25 @@ fn boxed_cells(reg: &mut Vec<Cell>, w: usize, t: u8) {
         cell!(reg, t, "BoxedMontyForm::square", w, pubs, g.clone(), move |s: &Slots| { bb(BoxedMontyForm::from_montgomery(bx(&s.a[0]), p.clone()).square()); });
         let p = params.clone();
         cell!(reg, t, "BoxedMontyForm::div_by_2", w, pubs, g.clone(), move |s: &Slots| { bb(BoxedMontyForm::from_montgomery(bx(&s.a[0]), p.clone()).div_by_2()); });
+        let p = params.clone();
+        cell!(reg, t, "BoxedMontyForm::double", w, pubs, g.clone(), move |s: &Slots| { bb(BoxedMontyForm::from_montgomery(bx(&s.a[0]), p.clone()).double()); });
+        let p = params.clone();
+        cell!(reg, t, "BoxedMontyForm::assign_ops", w, pubs, g.clone(), move |s: &Slots| {
+            let (mut x, y) = (BoxedMontyForm::from_montgomery(bx(&s.a[0]), p.clone()), BoxedMontyForm::from_montgomery(bx(&s.a[1]), p.clone()));
+            x += &y;
+            x *= &y;
+            x -= &y;
+            bb(x);
+        });
+        let p = params.clone();
+        cell!(reg, t, "BoxedMontyForm::PartialEq::eq", w, pubs, g.clone(), move |s: &Slots| {
+            let (x, y) = (BoxedMontyForm::from_montgomery(bx(&s.a[0]), p.clone()), BoxedMontyForm::from_montgomery(bx(&s.a[1]), p.clone()));
+            bb(x == y);
+        });
+        if w <= 2 {
+            let p = params.clone();
+            cell!(reg, t, "BoxedMontyForm::pow", w, pubs, g.clone(), move |s: &Slots| { bb(BoxedMontyForm::from_montgomery(bx(&s.a[0]), p.clone()).pow(&bx(&s.a[2]))); });
+        }
         let p = params.clone();
         cell!(reg, t, "BoxedMontyForm::invert", w, pubs, g.clone(), move |s: &Slots| { bb(BoxedMontyForm::from_montgomery(bx(&s.a[0]), p.clone()).invert()); });
         for eb in [1u32, 5, 64, 65] {
